@@ -163,7 +163,7 @@ func rulePoolForeign(r *Run) {
 	ta := &taintAnalysis{p: p, memo: map[string]*taintSummary{}}
 	n := 0
 	for _, g := range p.poolSites("Get") {
-		v, t := gotValue(g.call)
+		v, t := g.val, g.typ
 		if v == nil || typeString(t) != "*[]byte" {
 			continue
 		}
@@ -357,7 +357,7 @@ func (p *Program) poolReturningCloseTypes() map[string]bool {
 		}
 		puts := false
 		eachInstr(fn, func(in ssa.Instruction) {
-			if c, ok := in.(ssa.CallInstruction); ok && calleeName(c) == "(*sync.Pool).Put" {
+			if c, ok := in.(ssa.CallInstruction); ok && p.isPoolPut(c) {
 				puts = true
 			}
 		})
